@@ -10,7 +10,7 @@ Request formats (fields separated by TAB, see harness/props/c10.py):
 * `live_with  cfg  init  faults  ops  raiseAt`  -> `termops#raised#` final control state
 * `live_spec  cfg  init  ops`                   -> `wf;printed;lastFrame`
 * `live_specm cfg  init  ops`                   -> `wfM;rows` (finished ++ liveFrameOf, trailing spaces / blank rows trimmed)
-cfg  = `kind,transient,W,H,redirOut,redirErr,bareBypass,startGuard,overflow,resetShape,blankFix,flushFix,terminal,dumb,disable,spin`
+cfg  = `kind,transient,W,H,redirOut,redirErr,bareBypass,startGuard,overflow,resetShape,blankFix,flushFix,terminal,dumb,disable,faultBase,guardBase,disableFix,spin`
        (numbers; `spin` = code points of what the Status spinner shows at the 0th, 1st, … render)
 init = initial renderable as a line list `n:l1,l2,…`
 faults = `-` | comma separated call indices, the last one optionally `k+` (every index ≥ k)
@@ -65,7 +65,7 @@ def decOverflow : String → Option Overflow
 
 def decCfg (s : String) : Option (Cfg × Overflow) :=
   match s.splitOn "," with
-  | [k, tr, w, h, ro, re, bb, sg, ov, rs, bf, ff, tm, db, ds, sp] => do
+  | [k, tr, w, h, ro, re, bb, sg, ov, rs, bf, ff, tm, db, ds, fb, gb, df, sp] => do
     let kind ← decKind k
     let ov ← decOverflow ov
     let w ← w.toNat?
@@ -75,6 +75,7 @@ def decCfg (s : String) : Option (Cfg × Overflow) :=
             redirectStderr := decBool re, bareBypass := decBool bb, startGuard := decBool sg,
             resetShape := decBool rs, blankFix := decBool bf, flushFix := decBool ff,
             terminal := decBool tm, dumb := decBool db, disable := decBool ds,
+            faultBase := decBool fb, guardBase := decBool gb, disableFix := decBool df,
             spin := fun i => spins.getD i '⠋', cw := cw }, ov)
   | _ => none
 
@@ -164,17 +165,6 @@ def runPerOp (cfg : Cfg) (fails : Nat → Bool) : St → List Op → List String
 def rstrip (l : Line) : Line := (l.reverse.dropWhile (· == ' ')).reverse
 def trimFrame (f : Frame) : Frame := ((f.map rstrip).reverse.dropWhile (·.isEmpty)).reverse
 
-/-- rows of the tasks table must fit the console width (otherwise Rich truncates them with an ellipsis:
-outside the model) — both the table built by the last refresh and the one the next refresh would build -/
-def tableFits (cfg : Cfg) (st : St) : Bool :=
-  cfg.kind != .progress ||
-    (maxWidth cfg.cw st.renderable ≤ curWidth cfg st && maxWidth cfg.cw (tasksTable cfg.cw st.tasks) ≤ curWidth cfg st)
-
-/-- does a whole history stay within the modelled domain? -/
-def historyFits (cfg : Cfg) (fails : Nat → Bool) : St → List Op → Bool
-  | st, [] => tableFits cfg st
-  | st, op :: rest => tableFits cfg st && historyFits cfg fails (step cfg fails st op).st rest
-
 def handlers : List (String × (List String → String)) := [
   ("term_replay", fun a => match a with
     | [h, ops] =>
@@ -186,7 +176,7 @@ def handlers : List (String × (List String → String)) := [
     | [cfg, init, faults, ops] =>
       match decCfg cfg, decFaults faults, decOpsL ops with
       | some (cfg, ov), some fails, some ops =>
-        if !inDomain cfg ov ops || !historyFits cfg fails (initOf cfg ov init) ops then "unmodelled" else
+        if !inDomain cfg ov ops  then "unmodelled" else
         let (l, st) := runPerOp cfg fails (initOf cfg ov init) ops
         "|".intercalate l ++ "#" ++ encCtl st
       | _, _, _ => "unmodelled"
@@ -195,7 +185,7 @@ def handlers : List (String × (List String → String)) := [
     | [cfg, init, faults, ops, raiseAt] =>
       match decCfg cfg, decFaults faults, decOpsL ops with
       | some (cfg, ov), some fails, some ops =>
-        if !inDomain cfg ov ops || !historyFits cfg fails (initOf cfg ov init) (.start :: ops) then "unmodelled" else
+        if !inDomain cfg ov ops then "unmodelled" else
         let (st, out, raised) := runWith cfg fails (initOf cfg ov init) ops (decOptNat raiseAt)
         encOps out ++ "#" ++ encBool raised ++ "#" ++ encCtl st
       | _, _, _ => "unmodelled"
@@ -204,7 +194,7 @@ def handlers : List (String × (List String → String)) := [
     | [cfg, init, faults, pre, ops, raiseAt] =>
       match decCfg cfg, decFaults faults, decOpsL pre, decOpsL ops with
       | some (cfg, ov), some fails, some pre, some ops =>
-        if !inDomain cfg ov (pre ++ ops) || !historyFits cfg fails (initOf cfg ov init) (pre ++ .start :: ops) then "unmodelled" else
+        if !inDomain cfg ov (pre ++ ops) then "unmodelled" else
         let (st0, out0, _) := run cfg fails (initOf cfg ov init) pre
         let (st, out, raised) := runWith cfg fails st0 ops (decOptNat raiseAt)
         encOps (out0 ++ out) ++ "#" ++ encBool raised ++ "#" ++ encCtl st
